@@ -21,7 +21,7 @@ use crate::{
     ensure_that, fail,
     fixtures::{
         problems::{hash_f64s, Instr, Instrumented, RealKind, RealP},
-        run::{build_bits_with, build_perm_with, build_real_with, bits_of, real_of, run_observed, run_spec_strategy, tsp_of, Audit, EvalKind, Kind, Phase, RunSpec, StepEv},
+        run::{run_observed_auto, build_bits_with, build_perm_with, build_real_with, bits_of, real_of, run_observed, run_spec_strategy, tsp_of, Audit, EvalKind, Kind, Phase, RunSpec, StepEv},
     },
     props::c16::TEMPLATE_NAMES,
 };
@@ -524,9 +524,9 @@ fn run_case<P: Instrumented + Clone + 'static>(c: &RunCase, cfg: ExecResult<Conf
     let res = match c.parallel_threads {
         Some(t) => {
             *cl |= 8;
-            crate::fixtures::pool(t as usize).install(|| run_observed(&cfg, &problem, c.spec.seed, EvalKind::Parallel, audit.clone()))
+            crate::fixtures::pool(t as usize).install(|| run_observed_auto(&cfg, &problem, c.spec.seed, EvalKind::Parallel, audit.clone()))
         }
-        None => run_observed(&cfg, &problem, c.spec.seed, EvalKind::Sequential, audit.clone()),
+        None => run_observed_auto(&cfg, &problem, c.spec.seed, EvalKind::Sequential, audit.clone()),
     };
     let a = audit.lock().unwrap();
     if problem.instr().out_of_order() > 0 {
